@@ -57,8 +57,24 @@ def native_obligations(prop="C02", part="nat", strings=False):
     obs = []
     # float operators: the emitted C applies the same C double operation to (a, b) in that order; arithmetic results are compared
     # as bit patterns (contracts/spec_str.h spec_f64_bits), comparisons as the C comparison (NaN: unordered) - full domain
+    # measured: + and - close on the full domain (cadical 15 s, kissat 17 s, minisat 170 s); * and / do not (two 53-bit multipliers /
+    # dividers compared, > 300 s on every SAT back end; z3 / cvc5 give SPURIOUS counterexamples on the bit-pattern comparison and
+    # are never used): full-domain corner facts (U) + the generic value on operands with few significant fraction bits (B).
+    FBOUND = {"mulf": (44, "frac8"), "divf": (48, "frac4")}
     for name in T.FLOAT_OPS:
-        obs.append(tmpl_ob(prop, "%s.%s.%s" % (prop, part, name), name, MODE_VALUE))
+        base = "%s.%s.%s" % (prop, part, name)
+        if name in FBOUND:
+            k, sfx = FBOUND[name]
+            obs.append(tmpl_ob(prop, base + ".corner", name, MODE_CORNER, backends=["cadical"]))
+            b = tmpl_ob(prop, "%s.%s" % (base, sfx), name, MODE_VALUE, backends=["cadical", "kissat"], weight=5,
+                        strength="B(operands with the %d low fraction bits zero = %d significant fraction bits; every sign, exponent, zero, "
+                                 "subnormal, infinity, NaN; full domain: .corner)" % (k, 52 - k))
+            b["defines"]["VERIF_FMASK"] = k
+            obs.append(b)
+        elif name in FLOAT_ARITH:
+            obs.append(tmpl_ob(prop, base, name, MODE_VALUE, backends=["cadical", "kissat"], weight=5))
+        else:
+            obs.append(tmpl_ob(prop, base, name, MODE_VALUE))
     if strings:
         # string == / != by content; strcmp / strncmp / strnlen are CBMC's library models, unwound (--unwind 7 covers buffers of 5 bytes)
         for name in T.STRING_OPS:
